@@ -125,3 +125,17 @@ for strict in (0, 1):
         + (['finder (not part of the check): in the ENCODED branch a failing _dbus_string_move leaves the loader buffer outstanding (no _dbus_message_loader_return_buffer before `goto nomem`); '
             'the next _dbus_message_loader_get_buffer would abort on `!loader->buffer_outstanding`.  Dead code today: no mechanism has a decode function (C08.find_mech); not replayable natively']
            if strict else [])))
+IT_RC = {'do_authentication': 'verif_stub_do_authentication', 'do_reading': 'verif_stub_do_reading', 'do_writing': 'verif_stub_do_writing',
+         'check_write_watch': 'verif_stub_check_write_watch', 'do_io_error': 'verif_stub_do_io_error', 'unix_error_with_read_to_come': 'verif_stub_unix_error_with_read_to_come'}
+for fn_no, nm, fn in ((1, 'do_iteration', 'socket_do_iteration'), (2, 'handle_watch', 'socket_handle_watch')):
+    UNITS.append(dict(
+        name='C11.auth_boundary.' + nm, props=['C11', 'C10'], kind='P', route='stub', entry='harness',
+        tus=[dict(file=TS, include_as='VERIF_TU')], harness='harness/c10_iteration.c', defines=['VERIF_FN=%d' % fn_no], replace_calls=IT_RC, timeout=300, expect_s=5,
+        must_have=['the handshake completed in this call => do_reading is NOT called'],
+        functions=[dict(name=fn, file=TS, status='enforced', contract='handshake completed inside this call => no do_reading (do_iteration: no do_writing either) afterwards in the call; reads/writes only when asked, after the authentication step'),
+                   dict(name='do_authentication', file=TS, status='replaced', note='*auth_completed == (authenticated flipped during the call); FALSE <=> OOM (its own last statements; handshake content: C08 units)'),
+                   dict(name='do_reading, do_writing', file=TS, status='replaced', note='call log; contracts: C10.do_reading.bytes, C15.do_reading / C15.do_writing, C08.io_guard.*'),
+                   dict(name='_dbus_transport_try_to_authenticate', file=TR, status='stub', note='cached state only: it does not itself complete the handshake at the top of the iteration'),
+                   dict(name='_dbus_poll, errno predicates, check_write_watch, do_io_error, unix_error_with_read_to_come, _dbus_auth_do_work', file=TS, status='stub', note='arbitrary results (kernel / bookkeeping)')],
+        assumptions=['the handshake completes only inside do_authentication during these calls (_dbus_transport_try_to_authenticate at the top of socket_do_iteration returns the cached state)',
+                     'the EINTR retry of socket_do_iteration (backward goto, memoryless) is closed by an invariant cut in the stub of _dbus_get_is_errno_eintr (invariant TRUE); nothing is unwound']))
